@@ -146,6 +146,11 @@ pub fn run(ctx: &mut Ctx) {
                 ctx.count(&format!("op.{}", o), 1);
             }
         }
+        if super::mpc_common::max_node_bits(&prog.ctx) > super::mpc_common::GIANT_NODE_BITS {
+            // accepted, but not evaluated: a node value of more than 16 MB (see max_node_bits)
+            ctx.count("skipped_giant_node_program", 1);
+            return;
+        }
         let n_draws = ctx.q(2, 3);
         let mut evaluated = false;
         for d in 0..n_draws {
